@@ -7,7 +7,8 @@ export SEED_REPO=/tmp/repo_seeds
 [ -d "$SEED_REPO" ] || git -C /repo worktree add --detach "$SEED_REPO" HEAD >/dev/null 2>&1
 git -C "$SEED_REPO" checkout -q --detach "$(git -C /repo rev-parse HEAD)" && git -C "$SEED_REPO" checkout -q -- .
 missed=0
-for d in seeded/*/; do
+# optional argument: a glob over seed ids (default: all), e.g. tools/all_seeds.sh "C*-[mn]"
+for d in seeded/${1:-*}/; do
   id=$(basename "$d")
   [ -f "$d/meta.json" ] || continue
   prop=$(python3 -c "import json,sys; print(json.load(open('$d/meta.json'))['breaks_property'])")
